@@ -15,13 +15,13 @@ RULE = ("trees up to depth 4 with hidden files and directories at every level, 1
         "compared with the model's gatherer (multiset) and with a specification evaluated directly on the tree; glob "
         "patterns vs fnmatch.fnmatchcase on generated pattern/name pairs; stream moving_runs: real (non-dry) runs with arbitrary "
         "plans (files moved into directories that exist and are listed later, unsorted recursive walks): every entry a name "
-        "is generated for must be a designated entry of the initial tree, once per designation; non-trivial = the tree has a hidden component "
+        "is generated for must be a designated entry of the initial tree, once per designation; 12 % of the trees contain links to directories elsewhere in the tree (several routes to one directory; expectation = the harness's own link-following walk); non-trivial = the tree has a hidden component "
         "or a filter is given; distinct by the full case")
 ASSUMPTIONS = [
     "regex and template filters are arbitrary total predicates in the theorems; in the oracle they are evaluated with re / "
     "the documented tags' meaning (Size, Ext, Name)",
     "directory listing order is OS-defined: selections are compared as multisets",
-    "directory symlinks inside the input tree are excluded (K2)",
+    "the Lean traversal model does not enter directory symlinks (trees containing them are decided by the oracle's own walk, not by the model comparison); runs that *rename* through two routes are K2",
 ]
 TRUSTED = ["model Gather.lean states the selections as filters over the file system (not the pathlib traversal); tied to the "
            "real gatherers/filters by stream selection, and to fnmatch by stream glob"]
